@@ -607,6 +607,8 @@ where
         output.on_conn_error(error);
         input.on_conn_error(error);
         listener.on_conn_error(error);
+        // tasks blocked in open_*_stream on the stream limit are parked with the stream ids
+        self.stream_ids.local.wake_all();
     }
 }
 
